@@ -107,6 +107,31 @@ class Machine:
         v = self.word(a)
         self.mem[a] = v ^ (1 << off)
 
+    def micro_steps(self, device):
+        """execute ONE op as a generator yielding the micro-step label after each micro-step that changes
+        observable state (m0, m2 if output, m3 if input consumed, m4, m5); the final 'P' is yielded after the
+        count moved. exceptions (Fault, device errors) propagate."""
+        w, ip = self.w, self.ip
+        dw = 2 * w
+        if self.last_ops is not None:
+            self.last_ops.append(ip)
+        yield 'm0'
+        f = self.get_word(ip)
+        if f == dw or f == dw + 1:
+            device.write_bit(f == dw + 1)
+            yield 'm2'
+        if ip <= self.in_addr < ip + dw:
+            b = device.read_bit()
+            yield 'm3'
+            self.set_bit(self.in_addr, bool(b))
+            yield 'm4'
+        self.flip_bit(f)
+        yield 'm5'
+        j = self.get_word(ip + w)
+        self.count += 1
+        self.ip = j
+        yield 'P'
+
     # ---- one op; returns None to continue or a termination tuple
     def step(self, device):
         w, ip = self.w, self.ip
